@@ -19,6 +19,9 @@ function hook::run() {
 }
 
 function hook::_get_possible_handler_names() {
+  # Names are data: no pathname expansion. This function runs in a command substitution,
+  # so the option does not leak into the hook.
+  set -f
   if [[ "$BINDING_CONTEXT_CURRENT_BINDING" == "onStartup" ]]; then
     echo __on_startup
   elif BINDING_CONTEXT_CURRENT_TYPE=$(context::jq -er '.type'); then
@@ -67,15 +70,17 @@ function hook::_get_possible_handler_names() {
 }
 
 function hook::_run_first_available_handler() {
-  HANDLERS="$1"
+  local handlers=()
+  # Split into words without pathname expansion.
+  read -r -d '' -a handlers <<< "$1" || true
 
-  for handler in ${HANDLERS}; do
-    if type $handler >/dev/null 2>&1; then
-      ($handler) # brackets are to run handler as a subprocess
+  for handler in "${handlers[@]}"; do
+    if type "$handler" >/dev/null 2>&1; then
+      ("$handler") # brackets are to run handler as a subprocess
       return $?
     fi
   done
 
-  >&2 printf "ERROR: Can't find any handler from the list: %s\n." "$(echo ${HANDLERS} | sed -E 's/[[:space:]]+/, /g')"
+  >&2 printf "ERROR: Can't find any handler from the list: %s\n." "$(sed -E 's/[[:space:]]+/, /g' <<< "${handlers[*]}")"
   return 1
 }
